@@ -166,6 +166,7 @@ func TestVerifC17Arb(t *testing.T) {
 		hd := NewHandler(w.a, w.cl)
 		steps := r.Range(2, 7)
 		added := false
+		addedTerm := false // the job was already Succeeded / Failed when the (last) Create event added it
 		for s := 0; s < steps; s++ {
 			c := r.Intn(10)
 			if s == 0 {
@@ -185,6 +186,7 @@ func TestVerifC17Arb(t *testing.T) {
 				h.Op("arbadd")
 				h.Tag(fmt.Sprintf("add:phase=%s", cur.Status.Phase))
 				added = true
+				addedTerm = w.term != ""
 			case c < 4: // the migration controller moves the job on (its own Status().Update) + the Update event
 				cur := w.job()
 				if w.term != "" {
@@ -219,7 +221,13 @@ func TestVerifC17Arb(t *testing.T) {
 				h.Nontrivial()
 				h.Tag(fmt.Sprintf("round:%s->%s", before.Status.Phase, after.Status.Phase))
 				// ----- oracle: a job that has reached Succeeded or Failed never changes phase again -----
-				if w.term != "" && string(after.Status.Phase) != w.term {
+				if w.term != "" && string(after.Status.Phase) != w.term && !addedTerm {
+					// the job finished AFTER it was added: the arbitrator holds a stale copy; its write must be refused
+					// (Status().Update carries the resourceVersion; Props: arbitrator_stale_copy_never_flips)
+					h.Fail("C17:terminal-phase-changed:arbitrator-stale-copy",
+						"job was %s (persisted, written by the controller after the arbitrator took its copy), an arbitration round (pod %q present=%v, non-retryable filter fails=%v) overwrote it with %q/%q from the stale copy",
+						w.term, c17aPod, pod, w.nonRetry, after.Status.Phase, after.Status.Reason)
+				} else if w.term != "" && string(after.Status.Phase) != w.term {
 					h.Fail("C17:terminal-phase-changed:arbitrator-after-restart",
 						"job was %s (persisted), an arbitration round after a controller restart (job re-added by the Create handler, pod %q present=%v, non-retryable filter fails=%v) made it %q/%q",
 						w.term, c17aPod, pod, w.nonRetry, after.Status.Phase, after.Status.Reason)
